@@ -162,7 +162,9 @@ def check_history (c):
                 st = [float (x) for x in (rng.uniform (1.5, 4, 3) * lam * np.array ([1, 1, 1]))]
                 ops.append (('near', st, [0.1 * lam] * 3, [2, 1, int (rng.integers (1, 3))], None if rng.random () < 0.5 else float (10 ** rng.uniform (-2, 3))))
             elif u < 0.85:
-                ops.append (('compute',))
+                # computing twice, three times, four times at the same frequency
+                for r in range (1 + (c ['i'] + k) % 3):
+                    ops.append (('compute',))
             else:
                 ops.append (('report',))
     m    = gen.build (spec)
